@@ -449,6 +449,11 @@ def run_whatshap(
                     "read list file contains no information about this"
                 )
 
+        # These lists are appended to once per chromosome (and family), so start with empty files
+        for list_filename in (gtchange_list_filename, recombination_list_filename):
+            if list_filename:
+                open(list_filename, "w").close()
+
         with timers("parse_phasing_vcfs"):
             # TODO should this be done in PhasedInputReader.__init__?
             phased_input_reader.read_vcfs()
@@ -952,10 +957,20 @@ def find_mendelian_conflicts(trios: Sequence[Trio], variant_table: VariantTable)
 
 
 def write_changed_genotypes(gtchange_list_filename, changed_genotypes):
-    with open(gtchange_list_filename, "w") as f:
-        print(
-            "#sample", "chromosome", "position", "REF", "ALT", "old_gt", "new_gt", sep="\t", file=f
-        )
+    # called once per chromosome: append, write the header only into an empty file
+    with open(gtchange_list_filename, "a") as f:
+        if f.tell() == 0:
+            print(
+                "#sample",
+                "chromosome",
+                "position",
+                "REF",
+                "ALT",
+                "old_gt",
+                "new_gt",
+                sep="\t",
+                file=f,
+            )
         for changed_genotype in changed_genotypes:
             print(
                 changed_genotype.sample,
@@ -987,20 +1002,22 @@ def write_recombination_list(
             value = transmission_vector_value % 4
             transmission_vector_value = transmission_vector_value // 4
             transmission_vector_trio[trio.child].append(value)
-    with open(path, "w") as f:
+    # called once per chromosome and family: append, write the header only into an empty file
+    with open(path, "a") as f:
         n = 0
-        print(
-            "#child_id",
-            "chromosome",
-            "position1",
-            "position2",
-            "transmitted_hap_father1",
-            "transmitted_hap_father2",
-            "transmitted_hap_mother1",
-            "transmitted_hap_mother2",
-            "recombination_cost",
-            file=f,
-        )
+        if f.tell() == 0:
+            print(
+                "#child_id",
+                "chromosome",
+                "position1",
+                "position2",
+                "transmitted_hap_father1",
+                "transmitted_hap_father2",
+                "transmitted_hap_mother1",
+                "transmitted_hap_mother2",
+                "recombination_cost",
+                file=f,
+            )
         for trio in trios:
             recombination_events = find_recombination(
                 transmission_vector_trio[trio.child],
